@@ -355,6 +355,12 @@ def evalFunc {V} (S : Sem V) (st : St V) (t n : Tok) : Outcome (St V) :=
       | none => arg
     .ok { st with opf := opfRest, opft := opft, args := argsRest, opfd := opfd, opd := top :: st.opd }
 
+/-- `argumentInParentheses(opftStack, opfStack)`: is the innermost open bracket on `opft` a
+parenthesis rather than the function separator `sep = opfStack.Peek()`? -/
+def argInParen (sep : Tok) : List Tok → Bool
+  | [] => false
+  | t :: r => if isBeginParen t then true else if t = sep then false else argInParen sep r
+
 /-- the `if token.TSubType == efp.TokenSubTypeRange { … }` part of the in-function block: a
 reference that is an argument by itself is resolved here; `some r` = the loop `continue`s (or
 returns) with `r`, `none` = fall through -/
@@ -391,6 +397,8 @@ def inFuncRest {V} (S : Sem V) (st : St V) (f t n : Tok) : Outcome (St V) :=
     -- column / row separators of an open array constant are not function arguments
     -- (repository fix 6963681; before it they flushed the operator stack like any argument)
     if (curArr st).isSome then .ok st else
+    -- an argument separator directly inside a parenthesis separates nothing (repository fix cdb1ef6)
+    if argInParen f st.opft then .ok st else
     match flushToSep S true f st.opft st.opfd st.args with
     | .err => .err
     | .panic => .panic
@@ -425,12 +433,20 @@ def inFunc {V} (S : Sem V) (st : St V) (f t n : Tok) : Outcome (St V) :=
   | some r => r
   | none => inFuncRest S st f t n
 
+/-- `a := array(); a != nil && !a.inRow` -/
+def rowStarts {V} (st : St V) : Bool :=
+  match curArr st with
+  | some a => !a.inRow
+  | none => false
+
 /-- the loop body after the optional `parseToken` on the outer stacks: function start, array
 constant out of the function stack, in-function block -/
 def stepTail {V} (S : Sem V) (st : St V) (t n : Tok) : Outcome (St V) :=
   if isFuncStart t then
     if t.val == "ARRAY" then .ok { st with arrs := { depth := st.opf.length } :: st.arrs }
-    else if t.val == "ARRAYROW" then
+    else if t.val == "ARRAYROW" && rowStarts st then
+      -- a row of the open array constant; anywhere else (repository fix d5de215) the token is an
+      -- ordinary function start
       match curArr st with
       | some a => .ok (setCur st { a with inRow := true, row := [] })
       | none => .ok st
